@@ -402,6 +402,17 @@ XCLASS = ["Point3(x=1, y=5) == snapshot(Point(x=1, y=5))", "Point3(x=1, y=6, z=2
           "[Point(x=1), Point3(x=2)] == snapshot([Point(x=1), Point(x=2)])", "{'p': Point3(x=1)} == snapshot({'p': Point(x=1)})", "Point(x=1) == snapshot(Point3(x=1))"]
 
 
+# `in` snapshots whose members are mutable objects that are tested, changed and tested again: every member was tested, nothing is pending, whatever is approved
+GROW_SRC = ("from inline_snapshot import snapshot\n\n\ndef test_a():\n    v = []\n    for i in range(3):\n        v.append(i)\n        assert v in snapshot([[0], [0, 1], [0, 1, 2]])\n"
+            "    d = {}\n    for k in 'ab':\n        d[k] = 1\n        assert d in snapshot([{'a': 1}, {'a': 1, 'b': 1}])\n")
+
+
+def run_grow(flags):
+    from .. import driver
+    r = driver.run_inproc({"test_a.py": GROW_SRC}, flags)
+    return {"after": r["files"]["test_a.py"].decode(), "reported": r["reported"], "exc": r["session_exc"], "tests": [(t[1], t[2][:200]) for t in r["tests"]]}
+
+
 def run_xclass(expr):
     from .. import driver
     src = XCLASS_HDR + f"def test_a():\n    assert {expr}\n"
@@ -460,6 +471,13 @@ def run(ctx: Ctx):
     # C: constructor calls (dataclass): fix is reported iff the comparison fails; Model/CallAssign.v
     from .. import callassign as ca
     ca.check_part(ctx, 150 if not ctx.thorough else 2000, "C05")
+    grow_flags = [(), ("trim",), ("fix", "trim"), ("create", "fix", "trim", "update")]
+    for fl, o in zip(grow_flags, pmap(run_grow, grow_flags, chunksize=1)):
+        ctx.count(("grow", fl), True)
+        if o["exc"] or o["after"] != GROW_SRC or o["reported"] or any(t[1] != "ok" for t in o["tests"]):
+            ctx.report(f"C05 oracle: every member of an `in` snapshot was tested (mutable objects that grow between the tests), flags {fl}: reported {o['reported']}, "
+                       f"file changed: {o['after'] != GROW_SRC}, tests {o['tests']}, session {o['exc']}", {"kind": "grow", "flags": list(fl), "after": o["after"]})
+    ctx.coverage["oracle"]["growing_members"] = len(grow_flags)
     for expr, o in zip(XCLASS, pmap(run_xclass, XCLASS, chunksize=1)):
         ctx.count(("xclass", expr), True)
         if o["exc"] or any(t[1] != "ok" for t in o["tests2"]):
@@ -506,6 +524,10 @@ def replay(ctx: Ctx, data):
     if isinstance(data.get("case"), dict) and data["case"].get("kind") == "collreplace":
         from .. import collreplace as cr
         return cr.replay_case(data["case"]["case"])
+    if isinstance(data.get("case"), dict) and data["case"].get("kind") == "grow":
+        o = run_grow(tuple(data["case"]["flags"]))
+        print(o)
+        return not o["exc"] and o["after"] == GROW_SRC and not o["reported"]
     if isinstance(data.get("case"), dict) and data["case"].get("kind") == "xclass":
         o = run_xclass(data["case"]["expr"])
         print(o)
